@@ -34,10 +34,10 @@ def cfgs(tier):
     q = tier == "quick"
     cover = [
         # name, constants, keep one edge in `every` (1 = all)
-        ("membership-1rcv", dict(NR=1, Binds='{"any", "grp", "if"}', MaxSteps=4 if q else 5), 2 if q else 1),
-        ("membership-2rcv", dict(NR=2, Binds='{"any", "grp"}', MaxSteps=3 if q else 4), 2),
+        ("membership-1rcv", dict(NR=1, Binds='{"any", "any4", "grp", "if"}', MaxSteps=4 if q else 5), 2 if q else 1),
+        ("membership-2rcv", dict(NR=2, Binds='{"any", "any4", "grp"}', MaxSteps=3 if q else 4), 3),
         ("membership-2rcv-deep", dict(NR=2, Binds='{"any"}', MaxSteps=4 if q else 5), 6 if q else 4),
-        ("constructors", dict(NR=1, Binds='{"empty0", "lo0", "if0", "grp0", "any", "grp", "if"}', WBinds='{"any0", "if0"}',
+        ("constructors", dict(NR=1, Binds='{"empty0", "lo0", "if0", "grp0", "any", "any4", "grp", "if"}', WBinds='{"any0", "if0"}',
                               Acts='{"mem", "send", "wr", "wset"}', MaxSteps=2), 2 if q else 1),
         ("reads", dict(NG=1, NS=2, PreJoin="TRUE", Acts=RD, MaxSteps=5 if q else 7), 1 if q else 4),
         ("unicast-to-peer", dict(NR=2, NG=1, NS=2, Binds='{"solo", "any"}', Acts='{"mem", "send", "uni", "rd", "sync", "chain"}',
